@@ -130,8 +130,17 @@ func roundsUp(left uint64) bool {
 type result struct {
 	outs  []string
 	final string
-	fail  string
+	fails []string // every distinct violated statement of the history, in order of appearance
 	kinds map[string]int
+}
+
+func (r *result) has(k string) bool {
+	for _, f := range r.fails {
+		if f == k {
+			return true
+		}
+	}
+	return false
 }
 
 const sigExpiry = "float64-rounding-of-remainder-at-expiry"
@@ -177,8 +186,8 @@ func run(h hist) result {
 		res.kinds["history-with-duplicate-destination-ids"]++
 	}
 	setFail := func(k string) {
-		if res.fail == "" && judged {
-			res.fail = k
+		if judged && !res.has(k) {
+			res.fails = append(res.fails, k)
 		}
 	}
 	exec := func(m util.MerklePatriciaTrieI, i int, o op, key string) (error, [][3]string, []uint64) {
@@ -254,6 +263,8 @@ func run(h hist) result {
 			switch {
 			case o.K == "delete" && isOwner && late:
 				viol("owner-cannot-delete-pool")
+			case o.K == "trigger" && isOwner && late && len(before.Dests) > 0 && before.Pool.Balance > 0:
+				viol("owner-cannot-trigger-pool")
 			case o.K == "unlock" && isOwner && (broken || bi(before.Pool.Balance).Cmp(need) > 0):
 				viol("owner-cannot-withdraw-excess")
 			case o.K == "unlock" && !isOwner && o.T >= before.Expire:
@@ -352,6 +363,12 @@ func run(h hist) result {
 				continue
 			}
 			delta := nv - d.Vested
+			if a != nil && delta == 0 && a.Last != d.Last && d.Vested < d.Amount {
+				res.kinds["zero-payment-recorded-on-a-destination-with-remainder"]++
+			}
+			if a != nil && delta > 0 && d.Last != d.Move {
+				res.kinds["payment-after-an-earlier-zero-payment"]++
+			}
 			if vestedDelta[d.ID] == nil {
 				vestedDelta[d.ID] = big.NewInt(0)
 			}
@@ -383,7 +400,10 @@ func run(h hist) result {
 					exact.Div(pq, f)
 				}
 				slack := new(big.Int).Add(big.NewInt(1), new(big.Int).Rsh(bi(left), 51))
-				if f.Sign() > 0 && new(big.Int).Sub(bi(delta), exact).Cmp(slack) <= 0 {
+				// a float64 rounding step can lift the product over the next integer only when
+				// left * 2^-52 reaches the granularity 1/full of the exact quotient
+				reach := new(big.Int).Rsh(mul(bi(left), f), 50).Sign() > 0
+				if f.Sign() > 0 && reach && new(big.Int).Sub(bi(delta), exact).Cmp(slack) <= 0 {
 					setFail(sigSchedule)
 				} else {
 					setFail("ahead-of-schedule")
@@ -663,6 +683,49 @@ func genHist(r *vh.Rand) hist {
 	return h
 }
 
+// genDust: a large destination next to dust destinations (1-5 units) over a period long enough for early
+// triggers to pay the dust nothing (Last moves, Move does not), several owner triggers before expiry, then
+// the claims at expiry and the owner's withdrawal / delete
+func genDust(r *vh.Rand) hist {
+	h := hist{Conf: conf{MinLock: 1, MinDur: 2 * sec, MaxDur: 100000 * sec, MaxDests: 3}}
+	t0 := int64(r.Range(1000, 2000000000))
+	durS := int64(r.Range(100, 3000))
+	add := op{K: "add", C: 0, T: t0, Start: t0, Dur: durS * sec}
+	nd := r.Range(2, 3)
+	var want uint64
+	for j := 0; j < nd; j++ {
+		a := uint64(r.Range(1, 5))
+		if j == 0 && r.Chance(3, 4) {
+			a = uint64(r.Range(1, 1000000)) * uint64(r.PickU64([]uint64{1, 1000, 1000003, 10000000000}))
+		}
+		add.Dests = append(add.Dests, destReq{1 + j, a})
+		want += a
+	}
+	add.V = want + uint64(r.Intn(2))*uint64(r.Range(1, 50))
+	add.Bal = u64p(add.V)
+	h.Ops = append(h.Ops, add)
+	now := t0
+	for i, n := 0, r.Range(2, 7); i < n; i++ {
+		now += int64(r.Range(1, int(durS/2)))
+		if now >= t0+durS {
+			now = t0 + durS - int64(r.Range(1, 3))
+		}
+		o := op{K: "trigger", C: 0, T: now}
+		if r.Chance(1, 5) {
+			o = op{K: "unlock", C: r.Range(1, nd), T: now}
+		}
+		h.Ops = append(h.Ops, o)
+	}
+	end := t0 + durS
+	for j := 1; j <= nd; j++ {
+		if r.Chance(3, 4) {
+			h.Ops = append(h.Ops, op{K: "unlock", C: j, T: end + int64(r.Range(0, 5))})
+		}
+	}
+	h.Ops = append(h.Ops, op{K: "unlock", C: 0, T: end + 6}, op{K: "delete", C: 0, T: end + 7})
+	return h
+}
+
 func sub(h hist, keep []int) hist {
 	h2 := hist{Conf: h.Conf}
 	for _, i := range keep {
@@ -678,9 +741,11 @@ func main() {
 	rep := vh.NewReport("vesting", "C16", o)
 	rep.Rule = "one pool per history on the real vestingsc.Execute: add (1-4 destinations, amounts 0-10^12 or, 1 in 4 histories, around 2^53, 2^54, 2^60, 2^62, 2^63, MaxTokenSupply; " +
 		"value = sum, sum+excess, sum-1, tiny; start now/future/past; duration around min/max) then 1-14 of unlock by destination, trigger, owner unlock, stop, delete, strangers, " +
-		"with timestamps stepping through the period, at start±1, expiry±1, after expiry and sometimes backwards; plus directed histories. " +
+		"with timestamps stepping through the period, at start±1, expiry±1, after expiry and sometimes backwards; every fourth history puts dust destinations (1-5 units) next to a large one " +
+		"and runs 2-7 owner triggers inside the period (zero payments to the dust), the claims at expiry, the owner's withdrawal and delete; plus directed histories. " +
 		"non-trivial = the pool was created, tokens vested at least twice and a request was refused; distinct by full history"
 	cf := &vh.CasesFile{Imports: []string{"Base.Corr", "Model.Vesting", "Corr.Vesting"}, CaseType: "vs_case", CheckFn: "vs_check"}
+	reported := map[string]bool{}
 	handle := func(h hist) {
 		res := run(h)
 		for k, n := range res.kinds {
@@ -696,17 +761,22 @@ func main() {
 		rep.Case(string(b), res.kinds["add-ok"] > 0 && res.kinds["vested-moved"] >= 2 && refused > 0, h)
 		cf.Add(coqCase(h, res))
 		rep.CaseInputs = append(rep.CaseInputs, h)
-		if res.fail != "" {
-			keep := vh.ShrinkIdx(len(h.Ops), func(keep []int) bool { return run(sub(h, keep)).fail == res.fail })
-			desc := "vesting: " + res.fail
-			switch res.fail {
+		for _, f := range res.fails {
+			if reported[f] {
+				continue
+			}
+			reported[f] = true
+			f := f
+			keep := vh.ShrinkIdx(len(h.Ops), func(keep []int) bool { r2 := run(sub(h, keep)); return r2.has(f) })
+			desc := "vesting: " + f
+			switch f {
 			case sigExpiry:
 				desc = "at expiry destination.unlock pays Coin(float64(left)*1.0); for a remainder above 2^53 whose float64 rounds up this is more than the remainder: " +
 					"vested exceeds amount (and later left()/excess() fail: owner cannot withdraw or delete) or the transfer exceeds the pool balance (destination can never be paid, pool cannot be deleted)"
 			case sigSchedule:
 				desc = "float64(left)*(float64(period)/float64(full)) rounded above the exact quotient: vested is ahead of the linear schedule by less than one float64 rounding step"
 			}
-			rep.Violate("C16:"+res.fail, desc, sub(h, keep))
+			rep.Violate("C16:"+f, desc, sub(h, keep))
 		}
 	}
 	finish := func() {
@@ -743,13 +813,21 @@ func main() {
 	handle(hist{Conf: conf{MinLock: 1, MinDur: 2 * sec, MaxDur: 10000000 * sec, MaxDests: 3}, Note: "schedule witness", Ops: []op{
 		{K: "add", C: 0, T: 1000, V: 607985353607, Bal: u64p(607985353607), Start: 1000, Dur: 5747560 * sec, Dests: []destReq{{1, 607985353607}}},
 		{K: "unlock", C: 1, T: 4822061}}})
+	// dust next to a large destination: the trigger at +499 s pays the 2-unit destination nothing, the one at
+	// +800 s one unit; claims at expiry, delete
+	handle(hist{Conf: c, Note: "dust", Ops: []op{{K: "add", C: 0, T: 1000, V: 500000000002, Bal: u64p(500000000002), Start: 1000, Dur: 1000 * sec, Dests: []destReq{{1, 500000000000}, {2, 2}}},
+		{K: "trigger", C: 0, T: 1499}, {K: "trigger", C: 0, T: 1800}, {K: "trigger", C: 0, T: 1999}, {K: "unlock", C: 2, T: 2000}, {K: "unlock", C: 1, T: 2001}, {K: "delete", C: 0, T: 2002}}})
 	// small amounts through the whole life
 	handle(mk("small", 1000, []destReq{{1, 300}, {2, 600}}, op{K: "unlock", C: 1, T: 1010}, op{K: "trigger", C: 0, T: 1033}, op{K: "unlock", C: 0, T: 1034},
 		op{K: "stop", C: 0, T: 1050, D: 2}, op{K: "unlock", C: 0, T: 1051}, op{K: "unlock", C: 1, T: 1100}, op{K: "unlock", C: 1, T: 1101}, op{K: "delete", C: 0, T: 1200}))
 	rnd := vh.NewRand(o.Seed).Fork() // Fork: NewRand(k) is NewRand(1) shifted by k-1 draws
 	for i := 0; i < o.N(450, 6000); i++ {
-		handle(genHist(rnd))
+		if i%4 == 3 {
+			handle(genDust(rnd))
+		} else {
+			handle(genHist(rnd))
+		}
 	}
-	rep.Note("directed: F-16 witnesses (amount 2^53+3 with and without excess), round-down at expiry, schedule tie at 2^53-1, a small pool through add/unlock/trigger/stop/drain/delete")
+	rep.Note("directed: the inputs of the repaired float64 defects (amount 2^53+3 with and without excess, 2^53+1, 2^53-1 half way, 607985353607 at 4821061/5747560 s), dust next to a large destination with repeated triggers, a small pool through add/unlock/trigger/stop/drain/delete")
 	finish()
 }
